@@ -19,7 +19,12 @@ predicate checked there; "audit:" = added by the coverage audit, the rest existe
                                                                                                  of pure nucleotides), forms/text (non-ASCII str, Seq of bytes)
   revcomp: involution, case kept, others mirrored      rc: k-mers k<=6, bytes<=2, random <=80    == spec_revcomp, rc(rc(b)) == b; audit: k=7 (8 thorough), long
                                                                                                  (rc-long, 81..2^17+1 bytes; beyond 4096 bytes by the predicate
-                                                                                                 alone: the extracted functions are quadratic there)
+                                                                                                 alone: the extracted functions are quadratic there); round 9:
+                                                                                                 long (rc-ladder: every length m * 2^p, m = 1..9, p = 6..22 [24
+                                                                                                 thorough], m * 10^d, each -1 / +1, random lengths and random
+                                                                                                 block multiples up to 4 MiB -- length kept, every byte in its
+                                                                                                 mirrored position == _py_rc, twice == input; bytes, bytearray,
+                                                                                                 memoryview through gambit.seq / gambit.kmers / _cython.kmers)
   index of revcomp == kmer_to_index_rc                 only through the spec                     audit: enc, kmer_to_index_rc(b) == kmer_to_index(revcomp(b))
   all k-mers k<=8                                      enc: k<=7 quick, 8 thorough only          audit: k=8 (upper case) also in the quick tier
   all byte strings of length<=2                        enc, rc                                   as above; audit: now also through gambit.kmers.kmer_to_index_rc
@@ -65,7 +70,9 @@ window onto a pool object or onto the implementation's memory), and every bytes-
                                        in module globals or thread-locals                   script fail: invalid byte / > 32 / undefined Seq / non-ASCII str / unsupported type /
                                                                                             junk argument, then a good call through ANOTHER name on another object
   revcomp (gambit.seq, gambit.kmers,   the caller's buffer; the result (today bytes copied  as above (codec, put, fail); results retained to the end of the script
-    _cython.kmers)                     from a fresh bytearray)
+    _cython.kmers)                     from a fresh bytearray)                              round 9 (size classes, not state): long rc-ladder -- single calls on fresh objects
+                                                                                            of 63 bytes .. 4 MiB (16 MiB thorough); a block-wise wrapper's output buffer is
+                                                                                            observed only through the returned bytes (length, mirrored content, involution)
   index_to_kmer (both names)           index / k objects (0-d NumPy arrays are mutable);    before: decforms (fresh objects; one list shared by the two names by accident).
                                        the bytearray(k) work buffer (fresh, copied)         script dec: 1-2 k objects x 1-3 index objects in every integer form, all pairs,
                                                                                             keyword order swapped between the two calls, out-of-range / junk calls between
@@ -105,7 +112,9 @@ RULE = ('enc: byte strings -> kmer_to_index / kmer_to_index_rc (value or ValueEr
         '/ kmer_index() on a random window of a str/bytes/bytearray/Seq sequence, forward and reverse (non-trivial: '
         'k >= 2).  acc: KmerAccumulator.add_kmer over a list of k-mers, Set and Array accumulators (non-trivial: >= 2 '
         'distinct valid k-mers).  enc-long / rc-long: inputs of 41..2^17+1 bytes (rc-long beyond 4096 bytes is judged '
-        'by the property predicate alone).  script: 2-6 (mixed: up to ~9) steps over a pool of shared caller objects -- '
+        'by the property predicate alone).  rc-ladder: revcomp under its three public names on bytes / bytearray / '
+        'memoryview of every length m * 2^p (m = 1..9, p >= 6), m * 10^d, their two neighbours and random lengths up to '
+        '4 MiB (16 MiB thorough), judged by the property predicate (same length, mirrored complement, involution).  script: 2-6 (mixed: up to ~9) steps over a pool of shared caller objects -- '
         'k-mer buffers in every form, index / k objects, KmerSpec, long-lived KmerMatch objects, two accumulators -- every '
         'call made twice in a row (same answer), judged by the same predicate, all pool objects compared with the '
         'harness\'s record after every single call, writable results written to, results re-read at the end, about a '
@@ -644,22 +653,30 @@ def k_acc(ctx, cases):
 
 
 def k_long(ctx, cases):
-	"""inputs longer than the rc / enc streams produce: revcomp of up to 2^17+1 bytes, and over-long k-mers (must be
-	rejected whatever they contain).  Up to 4096 bytes the Coq specification is evaluated too; beyond that the
+	"""inputs longer than the rc / enc streams produce: revcomp of up to 2^17+1 bytes (rc-ladder: up to 4 / 16 MiB, at and
+	around every multiple of a power of two), and over-long k-mers (must be rejected whatever they contain).  Up to 4096 bytes the Coq specification is evaluated too; beyond that the
 	extracted functions are quadratic and the case is judged by the property predicate alone."""
 	import gambit.kmers as gk
 	import gambit.seq as gs
 	from gambit._cython import kmers as ck
 	import random
-	bs = []
-	for c in cases:
-		r = random.Random(c['seed'])
-		bs.append(bytes(r.choices(bytes.fromhex(c['alphabet']), k=c['n'])))
-	small = [i for i, b in enumerate(bs) if len(b) <= 4096] if ctx.model_ok else []
+
+	def content(c):
+		"""the n bytes of a case, from its seed.  gen='randbytes' (the size ladder): Random(seed).randbytes(n) mapped onto
+		the alphabet with one translate() -- megabytes in milliseconds; otherwise Random(seed).choices (the older cases)"""
+		r, alpha = random.Random(c['seed']), bytes.fromhex(c['alphabet'])
+		if c.get('gen') == 'randbytes':
+			return r.randbytes(c['n']).translate(bytes(alpha[j % len(alpha)] for j in range(256)))
+		return bytes(r.choices(alpha, k=c['n']))
+
+	# only the short inputs are kept for the whole batch (they go to the model driver); the long ones -- up to a few MiB
+	# each -- are made when their turn comes
+	bs = [content(c) if c['n'] <= 4096 else None for c in cases]
+	small = [i for i, b in enumerate(bs) if b is not None] if ctx.model_ok else []
 	ans = ctx.model([x for i in small for x in ((713, bs[i]), (711, bs[i]), (704, bs[i]), (701, bs[i]), (702, bs[i]))])
 	ans = {i: ans[5 * j:5 * j + 5] for j, i in enumerate(small)}
 	for i, c in enumerate(cases):
-		b, n, alpha = bs[i], c['n'], bytes.fromhex(c['alphabet'])
+		b, n, alpha = (bs[i] if bs[i] is not None else content(c)), c['n'], bytes.fromhex(c['alphabet'])
 		ctx.case(c, nontrivial=True)
 		e_rc = _py_rc(b)
 		e1, e2 = _py_enc(b), _py_enc(e_rc)
@@ -679,7 +696,7 @@ def k_long(ctx, cases):
 		bad = None
 		for form, obj in (('bytes', b), ('bytearray', bytearray(b)), ('memoryview', memoryview(b))):
 			ctx.count('stream:long:' + c['what'] + ':' + form)
-			for api, fn in (('gambit.seq.revcomp', gs.revcomp), ('_cython.kmers.revcomp', ck.revcomp)):
+			for api, fn in (('gambit.seq.revcomp', gs.revcomp), ('gambit.kmers.revcomp', gk.revcomp), ('_cython.kmers.revcomp', ck.revcomp)):
 				got = _canon_bytes(_call(fn, obj))
 				if got != e_rc:
 					if isinstance(got, bytes) and len(got) == len(e_rc):
@@ -1387,6 +1404,22 @@ def _gen_script(rng, theme):
 	return c
 
 
+def _size_ladder(cap, pmin=6):
+	"""lengths at which an implementation that cuts its input into blocks (or halves, or SIMD lanes) changes path: m * 2^p for
+	m = 1..9 and every p >= pmin, and m * 10^d (m = 1, 2, 3, 5; d >= 3), up to `cap` bytes, each with the lengths just below
+	and above it"""
+	s = set()
+	p = pmin
+	while (1 << p) <= cap:
+		s.update(m << p for m in range(1, 10) if (m << p) <= cap)
+		p += 1
+	d = 1000
+	while d <= cap:
+		s.update(m * d for m in (1, 2, 3, 5) if m * d <= cap)
+		d *= 10
+	return sorted(x for n in s for x in (n - 1, n, n + 1) if x <= cap)
+
+
 KINDS = {'enc': k_enc, 'dec': k_dec, 'rc': k_rc, 'forms': k_forms, 'text': k_text, 'decforms': k_decforms,
          'match': k_match, 'acc': k_acc, 'long': k_long, 'script': k_script}
 
@@ -1569,6 +1602,20 @@ def generate(ctx):
 		alpha = rng.choice([NUCS.hex(), NUC.hex(), b'A'.hex(), b'T'.hex(), b'a'.hex(), b'CG'.hex()])
 		ctx.count('stream:enc-long')
 		yield 'long', dict(what='enc', n=n, alphabet=alpha, seed=rng.randrange(2 ** 32))
+	# size ladder for revcomp (round 9): the property's revcomp clauses speak of byte strings of ANY length, and a wrapper that
+	# works block-wise / in chunks / by halves is wrong only at particular lengths -- so every public name gets inputs whose
+	# length is m * 2^p (m = 1..9, p = 6..22, 24 thorough), the decimal round numbers, each with both neighbours, and random
+	# lengths between; content from randbytes (all byte values / nucleotides with a few foreign bytes), judged by _py_rc
+	for n in _size_ladder(ctx.pick(1 << 22, 1 << 24)):
+		alpha = rng.choice([(NUCS + b'Nn-').hex(), full, NUCS.hex(), (NUCS * 8 + b'\xc1\xe1\xd4\xf4N\x00').hex()])
+		ctx.count('stream:rc-ladder')
+		yield 'long', dict(what='rc-ladder', n=n, alphabet=alpha, seed=rng.randrange(2 ** 32), gen='randbytes')
+	for _ in range(ctx.pick(40, 400)):
+		blk = 1 << rng.randint(8, 20)
+		n = rng.choice([rng.randint(4097, 1 << 20), blk * rng.randint(2, 40), blk * rng.randint(2, 40) + rng.choice([-1, 1])])
+		ctx.count('stream:rc-ladder-random')
+		yield 'long', dict(what='rc-ladder', n=min(n, 1 << 22), alphabet=rng.choice([(NUCS + b'Nn-').hex(), full]), seed=rng.randrange(2 ** 32),
+		                   gen='randbytes')
 	# ------------------------------------------------------------------------------------------------
 	# (state audit) call sequences over a small pool of shared caller objects, see "state and aliasing" in the docstring
 	import time
